@@ -40,14 +40,14 @@ def run(rep, work, tier, seed):
         leg_mutant(rep, work, SPEC, "mutant_no_restore",
                    cfg_text(dict(small, Bug="no_restore"), spec="Spec", invariants=INVS, properties=PROPS),
                    ["LexicalLookup", "Restored"])
-    leg_r(rep, work, SPEC, f"conf_{tier}", cfg_text(conf, invariants=INVS), lambda: ScopesDriver(types))
+    leg_r(rep, work, SPEC, f"conf_{tier}", cfg_text(conf, invariants=INVS), lambda: ScopesDriver(types), world=True)
     # state yielded by SEVERAL disposables of one scope (later declared wins, whatever the order in which they finished
     # entering): ScopeLife.tla's DisposableStateVisible, replayed here on two and three disposables
     from props.scopelife_common import ScopeLifeDriver
     for nd in (2, 3):
         life = dict(ND=nd, NC=0, Behaviours=["ok", "susp"], Bug="none")
         leg_r(rep, work, "ScopeLife", f"life_d{nd}_{tier}", cfg_text(life, invariants=["TypeOK", "DisposableStateVisible"]),
-              ScopeLifeDriver)
+              ScopeLifeDriver, world=True)
     # leg T: random programs beyond the exhaustive bound (depth 6, ~28 operations, 1 task(s)) validated by a trace
     # module generated from Scopes.tla
     rnd = random.Random(seed * 13 + 1)
